@@ -98,7 +98,7 @@ static void run_C12(void)
 
 /* ---------------------------------------------------------------------------------------------- C09 */
 static uint8_t M[256 * 256], Msave[256 * 256], Minv[256 * 256], Mprod[256 * 256];
-static long n_inv, n_sing, n_patterns, n_minors, n_pipeline, n_full;
+static long n_inv, n_sing, n_patterns, n_minors, n_pipeline, n_full, n_incr, n_dot;
 
 static int lib_invert_checked(int n, const char *what)
 {
@@ -167,6 +167,22 @@ static void pipeline(long idx, int cauchy, int m, int k, const uint8_t *alive /*
 	if (V_TRY(30)) { ec_init_tables(k, nl, dcoef, gtbl); ec_encode_data(len, k, nl, gtbl, recp, outp); V_END; } else { v_describe_fault(); v_viol("fault:ec_encode_data:recovery", "%s", v_fault_txt); return; }
 	n_pipeline++; evals++;
 	for (int e = 0; e < nl; e++) if (memcmp(rec[e], blk[lost[e]], len)) { snprintf(key, sizeof key, "recovery-mismatch:%s", cauchy ? "cauchy" : "rs"); v_viol(key, "m=%d k=%d erased block %d not reproduced", m, k, lost[e]); return; }
+	/* the same recovery done incrementally: parity-style accumulation with ec_encode_data_update(), survivors fed in a scrambled order */
+	if ((idx & 3) == 2 && nl <= 32) {
+		int order[256]; for (int j = 0; j < k; j++) order[j] = j; for (int j = k - 1; j > 0; j--) { int t = (int) ((idx * 2654435761u + (unsigned) j * 40503u) % (unsigned) (j + 1)); int x = order[j]; order[j] = order[t]; order[t] = x; }
+		for (int e = 0; e < nl; e++) { outp[e] = rec[e]; memset(rec[e], 0, len + 8); }
+		if (V_TRY(30)) { ec_init_tables(k, nl, dcoef, gtbl); for (int j = 0; j < k; j++) ec_encode_data_update(len, k, nl, order[j], gtbl, recp[order[j]], outp); V_END; } else { v_describe_fault(); v_viol("fault:ec_encode_data_update:recovery", "%s", v_fault_txt); return; }
+		n_pipeline++; n_incr++;
+		for (int e = 0; e < nl; e++) if (memcmp(rec[e], blk[lost[e]], len)) { snprintf(key, sizeof key, "recovery-mismatch:%s:incremental", cauchy ? "cauchy" : "rs"); v_viol(key, "m=%d k=%d erased block %d not reproduced by ec_encode_data_update over the survivors in scrambled order (first source fed: %d)", m, k, lost[e], order[0]); return; }
+	}
+	/* a single erased block through the public gf_vect_dot_prod() (32-byte tables from gf_vect_mul_init, documented minimum length 32) */
+	if ((idx & 3) == 3 && len >= 32 && k <= 255) {
+		static uint8_t tb[32 * 256]; int e = (int) (idx >> 2) % nl; for (int j = 0; j < k; j++) gf_vect_mul_init(dcoef[e * k + j], tb + 32 * j);
+		memset(rec[0], 0x33, len + 8);
+		if (V_TRY(30)) { gf_vect_dot_prod(len, k, tb, recp, rec[0]); V_END; } else { v_describe_fault(); v_viol("fault:gf_vect_dot_prod:recovery", "%s", v_fault_txt); return; }
+		n_pipeline++; n_dot++;
+		if (memcmp(rec[0], blk[lost[e]], len)) { snprintf(key, sizeof key, "recovery-mismatch:%s:gf_vect_dot_prod", cauchy ? "cauchy" : "rs"); v_viol(key, "m=%d k=%d len=%d erased block %d not reproduced by gf_vect_dot_prod", m, k, len, lost[e]); return; }
+	}
 	/* decode with the whole inverse into the same (now used) table buffer: all k data blocks come back, the rows of surviving data blocks are unit vectors (zero coefficients) */
 	if (k <= 32 && (idx & 1)) {
 		for (int e = 0; e < k; e++) { outp[e] = rec[e]; memset(rec[e], 0x55, len + 8); }
@@ -266,7 +282,7 @@ static void run_C09(void)
 			uint8_t alive[256]; memset(alive, 1, m); for (int e = 0; e < m - k; e++) { int x; do x = vrn(&r, m); while (!alive[x]); alive[x] = 0; }
 			pipeline(idx, cauchy, m, k, alive, len, c->name); }
 	}
-	v_stat("inversions", n_inv); v_stat("singular_inputs", n_sing); v_stat("survivor_patterns", n_patterns); v_stat("minors", n_minors); v_stat("recoveries_via_ec_encode_data", n_pipeline); v_stat("full_inverse_decodes_with_reused_tables", n_full);
+	v_stat("inversions", n_inv); v_stat("singular_inputs", n_sing); v_stat("survivor_patterns", n_patterns); v_stat("minors", n_minors); v_stat("recoveries_via_ec_encode_data", n_pipeline); v_stat("full_inverse_decodes_with_reused_tables", n_full); v_stat("incremental_decodes_in_scrambled_order", n_incr); v_stat("single_block_decodes_via_gf_vect_dot_prod", n_dot);
 }
 
 int main(int argc, char **argv)
